@@ -266,3 +266,10 @@ OPS = {
     B('for-loop-consumes', 'cli.decoy_fasta:DecoyFasta.reverse_sequence', stmt_text('continue'), to_pass, 'C20.e'),
  ]),
 }
+
+from selftest.table3 import EXTRA as _EXTRA     # noqa: E402  (rules added after seed round 3)
+from selftest.table3 import EXTRA_FUNCS as _EXTRA_FUNCS     # noqa: E402
+for _k, _v in _EXTRA.items():
+    OPS[_k]['ops'] += _v
+for _k, _v in _EXTRA_FUNCS.items():
+    OPS[_k]['funcs'] = list(OPS[_k]['funcs']) + [q for q in _v if q not in OPS[_k]['funcs']]
